@@ -67,6 +67,7 @@ def build(tier, seed):
              a_task(PROP, _with_search(scoping.host_block)), a_task(PROP, _with_search(scoping.submodule_block)), a_task(PROP, _with_search(scoping.own_procs_hide)), a_task(PROP, _get_deps),
              Task(f"{PROP}.S.own_tables", PROP, "FortranCodeUnit.correlate", lambda: __import__("contracts.useassoc", fromlist=["x"]).own_tables_obligations(PROP, lambda: __import__("bounded.c07", fromlist=["x"]).search())),
              Task(f"{PROP}.S.tables_only_grow", PROP, "ford.sourceform", lambda: __import__("contracts.useassoc", fromlist=["x"]).tables_only_grow(PROP, replay=lambda: __import__("bounded.c07", fromlist=["x"]).search())),
+             Task(f"{PROP}.S.find_used_modules.lookup", PROP, "find_used_modules", lambda: __import__("contracts.external", fromlist=["x"]).find_used_modules_lookup(PROP, lambda: __import__("bounded.c06", fromlist=["x"]).search())),
              Task(f"{PROP}.S.extension_order", PROP, "type extension order", lambda: scoping.extension_order(PROP)), bounded_task()]
     meta = {
         "trusted_base": TRUSTED_BASE,
